@@ -232,7 +232,7 @@ def run_property(prop, tier='quick', seed=0, replay=None):
         meta['extra'].update(getattr(ctx, 'extra', {}))
     # thorough extras (self-tests etc.) are run by the module if it defines them
     selftests = []
-    if tier == 'thorough' and not replay:
+    if tier == 'thorough' and not replay and not os.environ.get('VERIF_NO_SELFTEST'):
         try:
             import selftest
             selftests = selftest.run_for(prop, seed, REPO)
